@@ -123,7 +123,7 @@ def history_witnesses(diffs):
 def run(ctx):
     res = prove(ctx)
     runner = ensure_model_runner()
-    diffs = []
+    diffs, direct = [], []
     origin, small, big = {}, [], []
     if runner.ok:
         batches, origin, small, big = requests(ctx)
@@ -141,6 +141,25 @@ def run(ctx):
         batches["views-after-turns"] = tr
         for name, reqs in batches.items():
             diffs += correspond(ctx, name, reqs, canon=canon)
+        # direct statement on the implementation: consuming split() (which works on the object's own tables) leaves every
+        # position-level view of the object equal to that of a freshly built complex
+        from common import run_impl, Err
+        sp = []
+        spool = [x for x in small if "+" in x and len(x) <= 8]
+        for s_ in ctx.rng.sample(spool, min(len(spool), 400 if ctx.tier == "quick" else 4000)) + ["..+((+))", ".+(+)", "((+..+))", "((+))+.", "(+)+(+)", ".+.+(+)", "(+)+.+(.)"]:
+            sq_ = gs.seq_for(ctx.rng, s_, complementary=True)
+            n_ = s_.count("+") + 1
+            first = ctx.rng.choice([["pair_table"], ["exterior_domains"], ["is_connected"], ["strand_table"]])
+            sp.append(("c03_fresh_compare", [sq_, list(s_), [first, ["split"], ["pair_table"], ["is_domainlevel_complement"],
+                                                              ["get_paired_loc", [ctx.rng.randrange(n_), 0]], ["strand_table"],
+                                                              ["is_connected"], ["exterior_domains"], ["enclosed_domains"],
+                                                              ["kernel_string"], ["set_turns", 1], ["split"], ["pair_table"],
+                                                              ["is_domainlevel_complement"], ["rotate_pt"]]]))
+        for rq, r in zip(sp, run_impl(sp)):
+            if isinstance(r, Err) or r:
+                direct.append({"key": {"seq": rq[1][0], "struct": "".join(rq[1][1]), "ops": rq[1][2]}, "input": {"history": rq[1]},
+                               "what": str(r), "snippet": f"# harness op c03_fresh_compare {rq[1]!r} (harness/impl/views.py)"})
+        ctx.cov["correspondence"]["views-after-split(impl)"] = {"cases": len(sp), "failures": len(direct)}
     ctx.cov["rule"] = ("every well-formed structure with non-empty strands up to the tier's length bound (8 quick / 10 "
                        "thorough) for make_loop_index in both modes, one length less for the five object-level views "
                        "(called in a random order); random structures up to 60 strands / depth 100; single-fault damaged "
@@ -173,8 +192,12 @@ def run(ctx):
         for f in out["failures"][:10]:
             found.append({"key": {"s": f["s"]}, "input": {"s": f["s"], "seq": f["seq"]}, "what": f["what"],
                           "snippet": snippet(f["s"], f["seq"])})
-        return pre + found
+        return pre + direct + found
 
+    if direct and res["ok"] and runner.ok and not diffs:
+        for f in direct[:10]:
+            ctx.violation("counterexample", f)
+        return
     conclude(ctx, res, runner, diffs, search)
 
 
